@@ -1,6 +1,91 @@
 import Driver.JsonIO
+import RulioModel.Service
 open Lean
 
-/-- model-side handler for cases whose "kind" starts with "c18." (stub until the property's slice lands) -/
+/-! Model-side driver for property C18 (kinds `c18.*`): predicts, per HTTP request, the System call(s)
+(method + arguments) or the error class, from the request text and the decoder outputs supplied by the
+orchestrator for the texts it encoded (query strings, YAML); JSON texts are decoded with Lean's own parser. -/
+
+namespace C18Driver
+open Svc
+
+def errJson : ErrC → Json
+  | .noUri => Json.mkObj [("class", "noUri")]
+  | .unknownUri => Json.mkObj [("class", "unknownUri")]
+  | .missing p => Json.mkObj [("class", "missing"), ("param", p)]
+  | .illTyped p => Json.mkObj [("class", "illTyped"), ("param", p)]
+  | .decode => Json.mkObj [("class", "decode")]
+  | .panic => Json.mkObj [("class", "panic")]
+
+def objOfJson (j : Json) : Option (List (String × J)) :=
+  match j with
+  | .obj _ =>
+    match J.ofJson j with
+    | .ok (.obj kvs) => some kvs
+    | _ => none
+  | .null => some []      -- json.Unmarshal of `null` into a map leaves it untouched
+  | _ => none
+
+def tableLookup (tbl : Json) (s : String) : Option Json :=
+  match tbl with
+  | .arr xs => (xs.toList.find? (fun e => jstr e "in" == s)).map (fun e => jget e "out")
+  | _ => none
+
+def pairsOfJson (j : Json) : Option (List (String × List String)) :=
+  match j with
+  | .arr xs => xs.toList.mapM (fun e => match e with
+      | .arr kv =>
+        match kv.toList with
+        | [Json.str k, Json.arr vs] => (vs.toList.mapM (fun (v : Json) => v.getStr?.toOption)).map (fun l => (k, l))
+        | _ => none
+      | _ => none)
+  | _ => none
+
+def codecOf (dec : Json) : Codec :=
+  { parseQuery := fun s => (tableLookup (jget dec "query") s).bind pairsOfJson
+    jsonObj := fun s => match Json.parse s with | .ok j => objOfJson j | .error _ => none
+    yamlObj := fun s => (tableLookup (jget dec "yaml") s).bind (fun j => match j with | .null => none | _ => objOfJson j)
+    jsonAny := fun s => match Json.parse s with
+      | .ok j => (J.ofJson j).toOption
+      | .error _ => none }
+
+def callJson (k : SysCall) : Json :=
+  Json.mkObj [("method", k.method), ("args", Json.arr (k.args.map J.toJson).toArray), ("checked", k.checked)]
+
+def outcomeJson : Except ErrC Outcome → Json
+  | .ok o => Json.mkObj [("outcome", "ok"), ("status", (200 : Nat)),
+      ("calls", Json.arr (o.calls.map callJson).toArray),
+      ("swallowed", Json.arr (o.swallowed.map errJson).toArray), ("take", o.take)]
+  | .error .panic => Json.mkObj [("outcome", "panic"), ("status", (0 : Nat)), ("err", errJson .panic)]
+  | .error e => Json.mkObj [("outcome", "err"), ("status", (400 : Nat)), ("err", errJson e)]
+
+def doHttp (c : Json) : Json :=
+  let codec := codecOf (jget c "dec")
+  let r : HttpReq := ⟨jstr c "method", jstr c "url", jstr c "path", jstr c "rawQuery", jstr c "body"⟩
+  let dw := dwimURI r.urlString
+  match getHTTPRequest codec r with
+  | .error e => (outcomeJson (.error e)).mergeObj (Json.mkObj [("stage", "decode"), ("dwim", dw)])
+  | .ok m =>
+    let nf : Json := match uriNF m with
+      | some (some u) => Json.str u
+      | _ => Json.null
+    if uriNF m == some (some "/api/sys/util/batch") then
+      match processBatch codec m with
+      | .error e => (outcomeJson (.error e)).mergeObj (Json.mkObj [("stage", "process"), ("dwim", dw), ("uri", nf)])
+      | .ok items => Json.mkObj [("outcome", "batch"), ("status", (200 : Nat)), ("stage", "process"), ("dwim", dw), ("uri", nf),
+          ("items", Json.arr (items.map outcomeJson).toArray)]
+    else if uriNF m == some none then
+      (outcomeJson (.error (if Gen.C18.uriAssertChecked then ErrC.decode else ErrC.panic))).mergeObj
+        (Json.mkObj [("stage", "process"), ("dwim", dw), ("uri", nf)])
+    else
+      (outcomeJson (processRequest codec m)).mergeObj (Json.mkObj [("stage", "process"), ("dwim", dw), ("uri", nf),
+        ("inTable", (findRow (match uriNF m with | some (some u) => u | _ => "")).isSome)])
+
+end C18Driver
+
+/-- model-side handler for cases whose "kind" starts with "c18." -/
 def handleC18 (kind : String) (c : Json) : Json :=
-  Json.mkObj [("err", Json.str ("unknown kind " ++ kind))]
+  match kind with
+  | "c18.dwim" => Json.mkObj [("out", Json.str (Svc.dwimURI (jstr c "s")))]
+  | "c18.http" => C18Driver.doHttp c
+  | _ => Json.mkObj [("err", Json.str ("unknown kind " ++ kind))]
